@@ -27,7 +27,13 @@ type c04write struct {
 }
 
 var c04Writes = []c04write{{"Memset", false}, {"Zero", false}, {"SetAtSweep", false}, {"Copy", false}, {"CopyTwin", false}, {"AddUnsafeTwin", true}, {"CopyTo", false}, {"TransposeInPlace", false},
-	{"NegUnsafe", true}, {"SquareUnsafe", true}, {"AddUnsafeTT", true}, {"AddUnsafeTS", true}, {"AddReuse", true}, {"AddIncr", true}, {"MulScalarReuse", true}}
+	{"NegUnsafe", true}, {"SquareUnsafe", true}, {"AddUnsafeTT", true}, {"AddUnsafeTS", true}, {"AddReuse", true}, {"AddIncr", true}, {"MulScalarReuse", true},
+	// every other in-place arithmetic operation with a scalar on either side (each has its own engine method)
+	{"UnsafeTS:Sub", true}, {"UnsafeTS:Mul", true}, {"UnsafeTS:Div", true}, {"UnsafeTS:Pow", true}, {"UnsafeTS:Mod", true},
+	{"UnsafeST:Sub", true}, {"UnsafeST:Mul", true}, {"UnsafeST:Div", true}, {"UnsafeST:Pow", true}, {"UnsafeST:Mod", true}, {"UnsafeST:Add", true}}
+
+// c04skip marks a view element whose value is not judged by C04 (the operation is refused or undefined there: C06's business)
+type c04skip struct{}
 
 // mkContig builds a fresh contiguous tensor with the given logical values.
 func mkContig(d ref.DT, shape []int, vals []interface{}) *tensor.Dense {
@@ -171,6 +177,35 @@ func c04DoWrite(b *atlas.Built, w string) (want []interface{}, o Outcome, permut
 		}
 		o = call(func() error { _, e := tensor.Mul(x, d.Code(2), tensor.WithReuse(b.T)); return e })
 	default:
+		if strings.HasPrefix(w, "UnsafeTS:") || strings.HasPrefix(w, "UnsafeST:") {
+			op := w[len("UnsafeTS:"):]
+			sc := d.Code(3)
+			left := strings.HasPrefix(w, "UnsafeST:")
+			for i := range want {
+				var res ref.Res
+				if left {
+					res = ref.Arith(op, sc, old[i])
+				} else {
+					res = ref.Arith(op, old[i], sc)
+				}
+				if res.Refuse || res.Skip || res.Approx {
+					want[i] = c04skip{}
+				} else {
+					want[i] = res.V
+				}
+			}
+			fn := map[string]func(a, b interface{}, opts ...tensor.FuncOpt) (tensor.Tensor, error){"Add": tensor.Add, "Sub": tensor.Sub, "Mul": tensor.Mul, "Div": tensor.Div, "Pow": tensor.Pow, "Mod": tensor.Mod}[op]
+			o = call(func() error {
+				var e error
+				if left {
+					_, e = fn(sc, b.T, tensor.UseUnsafe())
+				} else {
+					_, e = fn(b.T, sc, tensor.UseUnsafe())
+				}
+				return e
+			})
+			return want, o, permuted
+		}
 		panic(w)
 	}
 	return want, o, permuted
@@ -234,6 +269,9 @@ func c04CheckWrite(r *core.Run, b *atlas.Built, w string) *core.Fail {
 	cells = b.View.Cell
 	for i, c := range cells {
 		got := ref.SliceGet(b.Root, c)
+		if _, skip := want[i].(c04skip); skip {
+			continue
+		}
 		if !ref.Same(got, want[i]) {
 			return core.F("wrong-value", fmt.Sprintf("el%d", i), "%s through view of shape %v: root cell %d (view element %d) is %s, expected %s", w, b.View.Shape, c, i, ref.Fmt(got), ref.Fmt(want[i]))
 		}
